@@ -46,12 +46,13 @@ GSdk == SdkNext /\ UNCHANGED hist
 GInit == Init /\ hist = <<>>
 GNext == GSdk \/ GEnv
 GSpec == GInit /\ [][GNext]_gvars
-SeamNext == GSdk \/ (~ENABLED SdkNext /\ GEnv)
+SeamNext == GSdk \/ (~SdkEnabled /\ GEnv)
 SeamSpec == GInit /\ [][SeamNext]_gvars
 MCView == vars
 
 \* export for -simulate: every quiescent state is the end of a complete script
-Quiet == ~ENABLED SdkNext
+Quiet == ~SdkEnabled
+SdkEnabledExact == SdkEnabled <=> ENABLED SdkNext
 Export == IF Quiet /\ Len(hist) >= 3 THEN PrintT(ToJson([steps |-> hist])) ELSE TRUE
 
 \* reachability witnesses (each must be VIOLATED, otherwise the configuration is vacuous)
